@@ -327,6 +327,62 @@ theorem components_superset_after (elemsOf : Nat → List String) (ms : Maps) (o
   apply components_superset elemsOf _ k hk n e _ el hel
   rw [refines_map]; exact h
 
+/-! ### the schedule of one simulation and the option tables, against the current source
+
+`Gen/StoreTables.lean` is rewritten by tools/gen_store.py from /repo on every run of the check; these obligations are
+re-decided each time, so a reordered call in `do_run`, a changed kind order in a driver loop, a reordered option vector
+or a re-wired `case` no longer checks. -/
+
+section SourceTables
+
+/-- the model runs the phases of a simulation in the order of the calls in `IPhreeqc::do_run` … -/
+theorem schedule_is_do_run : schedule.map Phase.call = Gen.StoreTables.doRun := by decide
+/-- … which is also the order in `Phreeqc::run_simulations` -/
+theorem schedule_is_run_simulations : schedule.map Phase.call = Gen.StoreTables.runSimulations := by decide
+/-- the observation point (`simToDump`) and the remainder make up exactly the schedule; DELETE comes after DUMP -/
+theorem schedule_split : schedule.takeWhile (· != .dump) ++ schedule.dropWhile (· != .dump) = schedule ∧
+    schedule.dropWhile (· != .dump) = [.dump, .deleteEntities] := by decide
+
+theorem set_use_order_is_source : setUseOrder.map Kind.name = Gen.StoreTables.setUse := by decide
+theorem copy_use_order_is_source : copyUseOrder.map Kind.name = Gen.StoreTables.copyUse := by decide
+theorem saver_is_source : saverKinds.map (fun p => (p.1.name, p.2)) = Gen.StoreTables.saverFan := by decide
+theorem do_mixes_order_is_source : mixOrder.map Kind.name = Gen.StoreTables.doMixes := by decide
+theorem copy_order_is_source : copyOrder.map Kind.name = Gen.StoreTables.copyEntities := by decide
+theorem delete_and_dump_order_is_source :
+    Kind.all.map Kind.name = Gen.StoreTables.deleteEntities ∧ Kind.all.map Kind.name = Gen.StoreTables.dumpOstream := by decide
+theorem component_kinds_is_source : componentKinds.map Kind.name = Gen.StoreTables.listComponents := by decide
+
+/-- the loop variable of `copy_entities` is signed in the current source, so `copy_content_eq` is about the code as it is -/
+theorem copy_loop_is_signed : Gen.StoreTables.copyLoopUnsigned = false := by decide
+
+/-- every option name the generator writes in a DELETE block selects the item of the intended kind -/
+theorem delete_names_resolve :
+    Gen.StoreTables.delNames.all (fun p => match kindOfName p.1 with
+      | some k => decide (resolveDelLine p.2 [] = some (.item k []))
+      | none => false) = true := by decide
+theorem delete_all_cell_resolve :
+    resolveDelLine "all" [] = some .all ∧ resolveDelLine "cell" [] = some (.cell []) ∧
+    resolveDelLine "cells" [] = some (.cell []) := by decide
+/-- an abbreviation goes to the FIRST option it is a prefix of: `-s` is solution (not surface), `-p` pp_assemblage,
+    `-r` reaction (not reaction_temperature), `-c` cell, `-a` all -/
+theorem delete_abbreviations :
+    resolveDelLine "s" [] = some (.item .solution []) ∧ resolveDelLine "su" [] = some (.item .surface []) ∧
+    resolveDelLine "p" [] = some (.item .pp []) ∧ resolveDelLine "pr" [] = some (.item .pressure []) ∧
+    resolveDelLine "r" [] = some (.item .reaction []) ∧ resolveDelLine "reaction_" [] = some (.item .temperature []) ∧
+    resolveDelLine "c" [] = some (.cell []) ∧ resolveDelLine "a" [] = some .all ∧
+    resolveDelLine "so" [] = some (.item .solution []) ∧ resolveDelLine "sol" [] = some (.item .solution []) ∧
+    resolveDelLine "soli" [] = some (.item .ss []) ∧ resolveDelLine "x" [] = none := by decide
+/-- every option of the vector is wired to an item -/
+theorem delete_options_all_wired :
+    Gen.StoreTables.binVopts.all (fun v => (resolveDelLine v []).isSome) = true ∧ Gen.StoreTables.binVopts.length = Gen.StoreTables.binCases.length := by decide
+/-- `-cells` of RUN_CELLS, also abbreviated, is the cell list -/
+theorem run_cells_option_resolves :
+    ["cells", "cell", "cel", "ce", "c"].all resolveCells = true ∧ resolveCells "s" = false := by decide
+/-- the observing `DUMP -all` selects "all" -/
+theorem dump_all_resolves : resolveOpt Gen.StoreTables.dumperVopts "all" = some Gen.StoreTables.dumperAllCase := by decide
+
+end SourceTables
+
 /-! ### non-vacuity: concrete histories -/
 
 def e0 (tok : Nat) (n hi : Int) : Entry := ⟨tok, n, hi, true, none, []⟩
